@@ -162,27 +162,27 @@ FACTORY_PRE
 __CPROVER_assigns(VERIF_thrown, g_term_allocs)
 __CPROVER_ensures(FRESH_TERM && IS_SMSP(RET, Value, Label1, Label2, orbital))
 //@end
-//@harness h_Presets_Level enforce=Presets_Level props=C04 min_obl=100 reach=1 objbits=8
+//@harness h_Presets_Level enforce=Presets_Level props=C04 min_obl=785 reach=1 objbits=8 timeout=60
 void h_Presets_Level(void) { label_t l1, l2; double v; unsigned short o1, o2, s1, s2; Presets_Level(l1, v, o1, s1); REACH("exit"); }
-//@harness h_Presets_Hopping7 enforce=Presets_Hopping7 props=C04 min_obl=100 reach=1 objbits=8
+//@harness h_Presets_Hopping7 enforce=Presets_Hopping7 props=C04 min_obl=785 reach=1 objbits=8 timeout=60
 void h_Presets_Hopping7(void) { label_t l1, l2; double v; unsigned short o1, o2, s1, s2; Presets_Hopping7(l1, l2, v, o1, o2, s1, s2); REACH("exit"); }
-//@harness h_Presets_Hopping5 enforce=Presets_Hopping5 props=C04 min_obl=100 reach=1 objbits=8
+//@harness h_Presets_Hopping5 enforce=Presets_Hopping5 props=C04 min_obl=785 reach=1 objbits=8 timeout=60
 void h_Presets_Hopping5(void) { label_t l1, l2; double v; unsigned short o1, o2, s1, s2; Presets_Hopping5(l1, l2, v, o1, s1); REACH("exit"); }
-//@harness h_Presets_NupNdown7 enforce=Presets_NupNdown7 props=C04,C20 min_obl=100 reach=1 objbits=8
+//@harness h_Presets_NupNdown7 enforce=Presets_NupNdown7 props=C04,C20 min_obl=1125 reach=1 objbits=8 timeout=60
 void h_Presets_NupNdown7(void) { label_t l1, l2; double v; unsigned short o1, o2, s1, s2; Presets_NupNdown7(l1, l2, v, o1, o2, s1, s2); REACH("exit"); }
-//@harness h_Presets_NupNdown6 enforce=Presets_NupNdown6 props=C04,C20 min_obl=100 reach=1 objbits=8
+//@harness h_Presets_NupNdown6 enforce=Presets_NupNdown6 props=C04,C20 min_obl=1125 reach=1 objbits=8 timeout=60
 void h_Presets_NupNdown6(void) { label_t l1, l2; double v; unsigned short o1, o2, s1, s2; Presets_NupNdown6(l1, v, o1, o2, s1, s2); REACH("exit"); }
-//@harness h_Presets_NupNdown4 enforce=Presets_NupNdown4 props=C04 min_obl=100 reach=1 objbits=8
+//@harness h_Presets_NupNdown4 enforce=Presets_NupNdown4 props=C04 min_obl=1035 reach=1 objbits=8 timeout=60
 void h_Presets_NupNdown4(void) { label_t l1, l2; double v; unsigned short o1, o2, s1, s2; Presets_NupNdown4(l1, v, o1, o2); REACH("exit"); }
-//@harness h_Presets_NupNdown5 enforce=Presets_NupNdown5 props=C04,C20 min_obl=100 reach=1 objbits=8
+//@harness h_Presets_NupNdown5 enforce=Presets_NupNdown5 props=C04,C20 min_obl=1125 reach=1 objbits=8 timeout=60
 void h_Presets_NupNdown5(void) { label_t l1, l2; double v; unsigned short o1, o2, s1, s2; Presets_NupNdown5(l1, v, o1, s1, s2); REACH("exit"); }
-//@harness h_Presets_Spinflip enforce=Presets_Spinflip props=C04,C20 min_obl=100 reach=1 objbits=8
+//@harness h_Presets_Spinflip enforce=Presets_Spinflip props=C04,C20 min_obl=834 reach=1 objbits=8 timeout=60
 void h_Presets_Spinflip(void) { label_t l1, l2; double v; unsigned short o1, o2, s1, s2; Presets_Spinflip(l1, v, o1, o2, s1, s2); REACH("exit"); }
-//@harness h_Presets_PairHopping enforce=Presets_PairHopping props=C04,C20 min_obl=100 reach=1 objbits=8
+//@harness h_Presets_PairHopping enforce=Presets_PairHopping props=C04,C20 min_obl=834 reach=1 objbits=8 timeout=60
 void h_Presets_PairHopping(void) { label_t l1, l2; double v; unsigned short o1, o2, s1, s2; Presets_PairHopping(l1, v, o1, o2, s1, s2); REACH("exit"); }
-//@harness h_Presets_SplusSminus enforce=Presets_SplusSminus props=C04 min_obl=100 reach=1 objbits=8
+//@harness h_Presets_SplusSminus enforce=Presets_SplusSminus props=C04 min_obl=832 reach=1 objbits=8 timeout=60
 void h_Presets_SplusSminus(void) { label_t l1, l2; double v; unsigned short o1, o2, s1, s2; Presets_SplusSminus(l1, l2, v, o1); REACH("exit"); }
-//@harness h_Presets_SminusSplus enforce=Presets_SminusSplus props=C04 min_obl=100 reach=1 objbits=8
+//@harness h_Presets_SminusSplus enforce=Presets_SminusSplus props=C04 min_obl=886 reach=1 objbits=8 timeout=60
 void h_Presets_SminusSplus(void) { label_t l1, l2; double v; unsigned short o1, o2, s1, s2; Presets_SminusSplus(l1, l2, v, o1); REACH("exit"); }
 
 /* ================= Part 2: LatticePresets::add* =================
@@ -196,6 +196,24 @@ void h_Presets_SminusSplus(void) { label_t l1, l2; double v; unsigned short o1, 
  */
 //@struct Pomerol::Lattice::TermStorage only=MaxTermOrder
 //@struct Pomerol::Lattice
+/* In the add* harnesses the factories are represented by their CONTRACTS proved in Part 1 (same ensures clauses), written as
+ * stubs that fill ONE global term instead of dfcc's replace-call-with-contract: a heap object per call made symbolic execution
+ * 100x slower.  ASSUMED = exactly the proved post-condition of the factory; the term is consumed by the monitor at once. */
+struct Lattice_Term g_ft; struct Lattice_Term nondet_Term(void);
+#define FT(pred) ({ g_ft = nondet_Term(); __CPROVER_assume(pred); &g_ft; })
+#define PresetsC_Level(l, v, o, s) FT(IS_LEVEL(&g_ft, v, l, o, s))
+#define PresetsC_Hopping7(l1, l2, v, o1, o2, s1, s2) FT(IS_HOPPING(&g_ft, v, l1, l2, o1, o2, s1, s2))
+#define NN_POST(l1, l2, v, o1, o2, s1, s2) (((l1) == (l2) && (o1) == (o2) && (s1) == (s2)) ? IS_LEVEL(&g_ft, v, l1, o1, s1) : IS_NN(&g_ft, v, l1, l2, o1, o2, s1, s2))
+#define PresetsC_NupNdown7(l1, l2, v, o1, o2, s1, s2) FT(NN_POST(l1, l2, v, o1, o2, s1, s2))
+#define PresetsC_NupNdown6(l, v, o1, o2, s1, s2) FT(NN_POST(l, l, v, o1, o2, s1, s2))
+#define PresetsC_SplusSminus(l1, l2, v, o) FT(IS_SPSM(&g_ft, v, l1, l2, o))
+#define PresetsC_SminusSplus(l1, l2, v, o) FT(IS_SMSP(&g_ft, v, l1, l2, o))
+//@free Level => PresetsC_Level
+//@free SplusSminus => PresetsC_SplusSminus
+//@free SminusSplus => PresetsC_SminusSplus
+//@free Hopping(label_t,label_t,double,ushort,ushort,ushort,ushort) => PresetsC_Hopping7
+//@free NupNdown(label_t,label_t,double,ushort,ushort,ushort,ushort) => PresetsC_NupNdown7
+//@free NupNdown(label_t,double,ushort,ushort,ushort,ushort) => PresetsC_NupNdown6
 enum { PM_COULOMBS = 1, PM_LEVEL, PM_MAGNET, PM_SZSZ, PM_SS, PM_HOPPING };
 struct PC { int mode; label_t l1, l2; double a1, a2; int gkind; unsigned short ga, gz1, gz2; unsigned long exp; long n; } g_pc;   /* constant during a call */
 struct PMS { unsigned long calls, hits; } g_pm;                                                                                 /* monitor state */
@@ -215,19 +233,20 @@ static _Bool pm_sound(const struct Lattice_Term *t)
 {
   label_t i = g_pc.l1, j = g_pc.l2;
   unsigned short a = t->Orbitals.d[0], s = t->Spins.d[0], s2 = t->Spins.d[2];
+  double mq = AMP_MQUARTER(g_pc.a1), q = AMP_QUARTER(g_pc.a1), h = AMP_HALF(g_pc.a1);     /* each spec quantity once */
   switch (g_pc.mode) {
   case PM_COULOMBS:   /* SUM_{a, s>s'} U n_{ias} n_{ias'} + SUM_{a,s} eps n_{ias} */
     return (g_pc.a2 != 0.0 && IS_LEVEL(t, g_pc.a2, i, a, s)) || (g_pc.a1 != 0.0 && IS_NN(t, g_pc.a1, i, i, a, a, s, s2) && s > s2);
   case PM_LEVEL:      /* SUM_{a,s} eps c^+_{ias} c_{ias} */
     return g_pc.a2 != 0.0 && IS_LEVEL(t, g_pc.a2, i, a, s);
   case PM_MAGNET:     /* SUM_a mH 1/2 (n_{ia up} - n_{ia down}) */
-    return IS_LEVEL(t, AMP_HALF(g_pc.a1), i, a, up) || IS_LEVEL(t, AMP_HALF(D_NEG(g_pc.a1)), i, a, down);
+    return IS_LEVEL(t, h, i, a, up) || IS_LEVEL(t, AMP_HALF(D_NEG(g_pc.a1)), i, a, down);
   case PM_SZSZ:       /* SUM_a J 1/2(n_{ia up} - n_{ia down}) 1/2(n_{ja up} - n_{ja down}); n n = n on the same site */
   case PM_SS:         /* SUM_a J S_ia S_ja = SzSz + J/2 (S+_i S-_j + S-_i S+_j) */
-    return IS_NN(t, AMP_MQUARTER(g_pc.a1), i, j, a, a, up, down) || IS_NN(t, AMP_MQUARTER(g_pc.a1), i, j, a, a, down, up) ||
-           (i != j && (IS_NN(t, AMP_QUARTER(g_pc.a1), i, j, a, a, up, up) || IS_NN(t, AMP_QUARTER(g_pc.a1), i, j, a, a, down, down))) ||
-           (i == j && (IS_LEVEL(t, AMP_QUARTER(g_pc.a1), i, a, up) || IS_LEVEL(t, AMP_QUARTER(g_pc.a1), i, a, down))) ||
-           (g_pc.mode == PM_SS && (IS_SPSM(t, AMP_HALF(g_pc.a1), i, j, a) || IS_SMSP(t, AMP_HALF(g_pc.a1), i, j, a)));
+    return IS_NN(t, mq, i, j, a, a, up, down) || IS_NN(t, mq, i, j, a, a, down, up) ||
+           (i != j && (IS_NN(t, q, i, j, a, a, up, up) || IS_NN(t, q, i, j, a, a, down, down))) ||
+           (i == j && (IS_LEVEL(t, q, i, a, up) || IS_LEVEL(t, q, i, a, down))) ||
+           (g_pc.mode == PM_SS && (IS_SPSM(t, h, i, j, a) || IS_SMSP(t, h, i, j, a)));
   case PM_HOPPING:    /* SUM_{s a} t c^+_{ias} c_{jas} and its Hermitian conjugate (real t) */
     return IS_HOPPING(t, g_pc.a1, i, j, a, a, s, s) || IS_HOPPING(t, g_pc.a1, j, i, a, a, s, s);
   }
@@ -237,24 +256,25 @@ static _Bool pm_sound(const struct Lattice_Term *t)
 static _Bool pm_ghost(const struct Lattice_Term *t)
 {
   label_t i = g_pc.l1, j = g_pc.l2; unsigned short a = g_pc.ga; int k = g_pc.gkind;
+  double mq = AMP_MQUARTER(g_pc.a1), q = AMP_QUARTER(g_pc.a1), h = AMP_HALF(g_pc.a1);
   switch (g_pc.mode) {
   case PM_COULOMBS: return k == 0 ? IS_LEVEL(t, g_pc.a2, i, a, g_pc.gz1) : IS_NN(t, g_pc.a1, i, i, a, a, g_pc.gz1, g_pc.gz2);
   case PM_LEVEL:    return IS_LEVEL(t, g_pc.a2, i, a, g_pc.gz1);
   case PM_MAGNET:   return k == 0 ? IS_LEVEL(t, AMP_HALF(g_pc.a1), i, a, up) : IS_LEVEL(t, AMP_HALF(D_NEG(g_pc.a1)), i, a, down);
   case PM_SZSZ: case PM_SS:
-    if (k == 0) return IS_NN(t, AMP_MQUARTER(g_pc.a1), i, j, a, a, up, down);
-    if (k == 1) return IS_NN(t, AMP_MQUARTER(g_pc.a1), i, j, a, a, down, up);
-    if (k == 2) return i != j ? IS_NN(t, AMP_QUARTER(g_pc.a1), i, j, a, a, up, up) : IS_LEVEL(t, AMP_QUARTER(g_pc.a1), i, a, up);
-    if (k == 3) return i != j ? IS_NN(t, AMP_QUARTER(g_pc.a1), i, j, a, a, down, down) : IS_LEVEL(t, AMP_QUARTER(g_pc.a1), i, a, down);
-    if (k == 4) return IS_SPSM(t, AMP_HALF(g_pc.a1), i, j, a);
-    return IS_SMSP(t, AMP_HALF(g_pc.a1), i, j, a);
+    if (k == 0) return IS_NN(t, mq, i, j, a, a, up, down);
+    if (k == 1) return IS_NN(t, mq, i, j, a, a, down, up);
+    if (k == 2) return i != j ? IS_NN(t, q, i, j, a, a, up, up) : IS_LEVEL(t, q, i, a, up);
+    if (k == 3) return i != j ? IS_NN(t, q, i, j, a, a, down, down) : IS_LEVEL(t, q, i, a, down);
+    if (k == 4) return IS_SPSM(t, h, i, j, a);
+    return IS_SMSP(t, h, i, j, a);
   case PM_HOPPING:  return k == 0 ? IS_HOPPING(t, g_pc.a1, i, j, a, a, g_pc.gz1, g_pc.gz1) : IS_HOPPING(t, g_pc.a1, j, i, a, a, g_pc.gz1, g_pc.gz1);
   }
   return 0;
 }
 static void pm_monitor(struct Lattice_Term *T)
 {
-  struct Lattice_Term c = *T;      /* ONE copy of the (heap) term; the predicates read the local copy */
+  struct Lattice_Term c = *T;
   __CPROVER_assert(pm_valid(&c), "C20: every term handed to the storage refers to known sites and to orbitals / spins inside their range");
   __CPROVER_assert(pm_sound(&c), "C04: every term handed to the storage belongs to the documented sum, with the documented amplitude");
   struct PMS s = g_pm; s.calls++; if (pm_ghost(&c)) { s.hits++; REACH("ghost_term"); } g_pm = s;
@@ -282,20 +302,20 @@ __CPROVER_requires(g_pc.l1 == Label && D_SAME(g_pc.a2, Level))
 /* ghost member: eps n_{i ga gz1} */
 __CPROVER_requires(K1 ==> (g_pc.ga < O1 && g_pc.gz1 < Z1))
 __CPROVER_requires(g_pc.exp == (Level != 0.0 ? 1UL : 0UL))
-__CPROVER_assigns(VERIF_thrown, g_pm)
+__CPROVER_assigns(VERIF_thrown, g_pm, g_ft)
 __CPROVER_ensures(VERIF_thrown == !K1)
 __CPROVER_ensures(VERIF_thrown ==> g_pm.calls == 0)
 __CPROVER_ensures(!VERIF_thrown ==> g_pm.hits == g_pc.exp)
 //@loop 1
-__CPROVER_assigns(i, g_pm)
+__CPROVER_assigns(i, g_pm, g_ft)
 __CPROVER_loop_invariant(i <= Orbitals && !VERIF_thrown && GH(i <= g_pc.ga))
 __CPROVER_decreases(Orbitals - i)
 //@loop 2
-__CPROVER_assigns(z, g_pm)
+__CPROVER_assigns(z, g_pm, g_ft)
 __CPROVER_loop_invariant(z <= Spins && !VERIF_thrown && (i == g_pc.ga ? GH(z <= g_pc.gz1) : g_pm.hits == __CPROVER_loop_entry(g_pm.hits)))
 __CPROVER_decreases(Spins - z)
 //@end
-//@harness h_addLevel enforce=LatticePresets_addLevel replace=Presets_Level props=C04,C20 min_obl=100 reach=3 objbits=8
+//@harness h_addLevel enforce=LatticePresets_addLevel props=C04,C20 min_obl=4120 reach=3 objbits=8 timeout=120
 void h_addLevel(void) { struct Lattice *L; label_t l; double e; LatticePresets_addLevel(L, l, e); if (VERIF_thrown) REACH("thrown"); REACH("exit"); }
 
 /* ---- addCoulombS */
@@ -306,24 +326,24 @@ __CPROVER_requires(g_pc.l1 == Label && D_SAME(g_pc.a1, U) && D_SAME(g_pc.a2, Lev
 /* ghost member: kind 0: eps n_{i ga gz1};  kind 1: U n_{i ga gz1} n_{i ga gz2}, gz1 > gz2 */
 __CPROVER_requires(K1 ==> (g_pc.ga < O1 && g_pc.gz1 < Z1 && (g_pc.gkind == 0 || (g_pc.gkind == 1 && g_pc.gz2 < g_pc.gz1))))
 __CPROVER_requires(g_pc.exp == ((g_pc.gkind == 0 ? Level != 0.0 : U != 0.0) ? 1UL : 0UL))
-__CPROVER_assigns(VERIF_thrown, g_pm)
+__CPROVER_assigns(VERIF_thrown, g_pm, g_ft)
 __CPROVER_ensures(VERIF_thrown == !K1)
 __CPROVER_ensures(VERIF_thrown ==> g_pm.calls == 0)
 __CPROVER_ensures(!VERIF_thrown ==> g_pm.hits == g_pc.exp)
 //@loop 1
-__CPROVER_assigns(i, g_pm)
+__CPROVER_assigns(i, g_pm, g_ft)
 __CPROVER_loop_invariant(i <= Orbitals && !VERIF_thrown && GH(i <= g_pc.ga))
 __CPROVER_decreases(Orbitals - i)
 //@loop 2
-__CPROVER_assigns(z1, g_pm)
+__CPROVER_assigns(z1, g_pm, g_ft)
 __CPROVER_loop_invariant(z1 <= Spins && !VERIF_thrown && (i == g_pc.ga ? GH(z1 <= g_pc.gz1) : g_pm.hits == __CPROVER_loop_entry(g_pm.hits)))
 __CPROVER_decreases(Spins - z1)
 //@loop 3
-__CPROVER_assigns(z2, g_pm)
+__CPROVER_assigns(z2, g_pm, g_ft)
 __CPROVER_loop_invariant(z2 <= z1 && !VERIF_thrown && ((i == g_pc.ga && z1 == g_pc.gz1 && g_pc.gkind == 1) ? GH(z2 <= g_pc.gz2) : g_pm.hits == __CPROVER_loop_entry(g_pm.hits)))
 __CPROVER_decreases(z1 - z2)
 //@end
-//@harness h_addCoulombS enforce=LatticePresets_addCoulombS replace=Presets_Level,Presets_NupNdown6 props=C04,C20 min_obl=100 reach=3 objbits=8
+//@harness h_addCoulombS enforce=LatticePresets_addCoulombS props=C04,C20 min_obl=4297 reach=3 objbits=8 timeout=400
 void h_addCoulombS(void) { struct Lattice *L; label_t l; double u, e; LatticePresets_addCoulombS(L, l, u, e); if (VERIF_thrown) REACH("thrown"); REACH("exit"); }
 
 /* ---- addMagnetization: the documentation says mH 1/2 (n_up - n_down); KNOWN FINDING D14: the code stores +-mH */
@@ -333,18 +353,18 @@ ADD_PRE(PM_MAGNET)
 __CPROVER_requires(g_pc.l1 == Label && D_SAME(g_pc.a1, Magnetization))
 /* ghost member: kind 0: (mH/2) n_{i ga up};  kind 1: (-mH/2) n_{i ga down} */
 __CPROVER_requires(K1 ==> (g_pc.ga < O1 && (g_pc.gkind == 0 || g_pc.gkind == 1)) && g_pc.exp == 1)
-__CPROVER_assigns(VERIF_thrown, g_pm)
+__CPROVER_assigns(VERIF_thrown, g_pm, g_ft)
 /* "Valid only for 2 spins" */
 __CPROVER_ensures(VERIF_thrown == (!K1 || Z1 != 2))
 __CPROVER_ensures(VERIF_thrown ==> g_pm.calls == 0)
 __CPROVER_ensures(!VERIF_thrown ==> g_pm.hits == g_pc.exp)
 //@loop 1
-__CPROVER_assigns(i, g_pm)
+__CPROVER_assigns(i, g_pm, g_ft)
 __CPROVER_loop_invariant(i <= Orbitals && !VERIF_thrown && GH(i <= g_pc.ga))
 __CPROVER_decreases(Orbitals - i)
 //@end
 #undef Label1
-//@harness h_addMagnetization enforce=LatticePresets_addMagnetization replace=Presets_Level props=C04,C20 min_obl=100 reach=3 objbits=8 defs=-DVERIF_FP_IEEE
+//@harness h_addMagnetization enforce=LatticePresets_addMagnetization props=C04,C20 min_obl=4061 reach=3 objbits=8 defs=-DVERIF_FP_IEEE timeout=120
 void h_addMagnetization(void) { struct Lattice *L; label_t l; double m; LatticePresets_addMagnetization(L, l, m); if (VERIF_thrown) REACH("thrown"); REACH("exit"); }
 
 /* ---- addSzSz */
@@ -355,40 +375,40 @@ ADD_PRE(g_pc.mode)
 __CPROVER_requires((g_pc.mode == PM_SZSZ || g_pc.mode == PM_SS) && g_pc.l1 == Label1 && g_pc.l2 == Label2 && D_SAME(g_pc.a1, ExchJ))
 /* ghost member: orbital ga, kind 0..3 = the four terms of the product (kind 4,5: the S+S-, S-S+ terms of addSS) */
 __CPROVER_requires((K1 && K2) ==> (g_pc.ga < O1 && 0 <= g_pc.gkind && g_pc.gkind <= (g_pc.mode == PM_SS ? 5 : 3)) && g_pc.exp == 1)
-__CPROVER_assigns(VERIF_thrown, g_pm)
+__CPROVER_assigns(VERIF_thrown, g_pm, g_ft)
 /* unknown label, sites of different size, or not 2 spins */
 __CPROVER_ensures(VERIF_thrown == (!K1 || !K2 || SIZES_MISMATCH || Z1 != 2))
 __CPROVER_ensures(VERIF_thrown ==> g_pm.calls == 0)
 __CPROVER_ensures(!VERIF_thrown ==> g_pm.hits == (g_pc.gkind <= 3 ? g_pc.exp : 0UL))
 //@loop 1
-__CPROVER_assigns(i, g_pm)
+__CPROVER_assigns(i, g_pm, g_ft)
 __CPROVER_loop_invariant(i <= Orbitals && !VERIF_thrown && (g_pc.gkind <= 3 ? GH(i <= g_pc.ga) : g_pm.hits == 0))
 __CPROVER_decreases(Orbitals - i)
 //@end
-//@harness h_addSzSz enforce=LatticePresets_addSzSz replace=Presets_Level,Presets_NupNdown7 props=C04,C20 min_obl=100 reach=3 objbits=8
+//@harness h_addSzSz enforce=LatticePresets_addSzSz props=C04,C20 min_obl=4150 reach=3 objbits=8 timeout=900
 void h_addSzSz(void) { struct Lattice *L; label_t l1, l2; double j; LatticePresets_addSzSz(L, l1, l2, j); if (VERIF_thrown) REACH("thrown"); REACH("exit"); }
 
 /* ---- addSS (calls addSzSz, inlined with its loop contract) */
+//@free addSzSz => LatticePresets_addSzSz
 //@function Pomerol::LatticePresets::addSS(Pomerol::Lattice*, std::__cxx11::basic_string<char, std::char_traits<char>, std::allocator<char> > const&, std::__cxx11::basic_string<char, std::char_traits<char>, std::allocator<char> > const&, double) as LatticePresets_addSS
 //@contract
 ADD_PRE(PM_SS)
 __CPROVER_requires(g_pc.l1 == Label1 && g_pc.l2 == Label2 && D_SAME(g_pc.a1, ExchJ))
 __CPROVER_requires((K1 && K2) ==> (g_pc.ga < O1 && 0 <= g_pc.gkind && g_pc.gkind <= 5) && g_pc.exp == 1)
-__CPROVER_assigns(VERIF_thrown, g_pm)
+__CPROVER_assigns(VERIF_thrown, g_pm, g_ft)
 __CPROVER_ensures(VERIF_thrown == (!K1 || !K2 || SIZES_MISMATCH || Z1 != 2))
 __CPROVER_ensures(VERIF_thrown ==> g_pm.calls == 0)
 __CPROVER_ensures(!VERIF_thrown ==> g_pm.hits == g_pc.exp)
 //@loop 1
-__CPROVER_assigns(i, g_pm)
+__CPROVER_assigns(i, g_pm, g_ft)
 __CPROVER_loop_invariant(i <= Orbitals && !VERIF_thrown && (g_pc.gkind >= 4 ? GH(i <= g_pc.ga) : g_pm.hits == g_pc.exp))
 __CPROVER_decreases(Orbitals - i)
 //@end
-//@harness h_addSS enforce=LatticePresets_addSS replace=Presets_Level,Presets_NupNdown7,Presets_SplusSminus,Presets_SminusSplus props=C04,C20 min_obl=100 reach=3 objbits=8
+//@harness h_addSS enforce=LatticePresets_addSS props=C04,C20 min_obl=4250 reach=3 objbits=8 timeout=900
 void h_addSS(void) { struct Lattice *L; label_t l1, l2; double j; LatticePresets_addSS(L, l1, l2, j); if (VERIF_thrown) REACH("thrown"); REACH("exit"); }
 
 /* ---- addHopping(L, i, j, t, a, a', s, s'): the checked single hopping term and its Hermitian conjugate (inlined below) */
-//@rename addHopping/8 => LatticePresets_addHopping8
-//@free addHopping(struct_Lattice_p,label_t,label_t,double,ushort,ushort,ushort,ushort) => LatticePresets_addHopping8
+//@free addHopping => LatticePresets_addHopping8
 //@function Pomerol::LatticePresets::addHopping(Pomerol::Lattice*, std::__cxx11::basic_string<char, std::char_traits<char>, std::allocator<char> > const&, std::__cxx11::basic_string<char, std::char_traits<char>, std::allocator<char> > const&, double, unsigned short, unsigned short, unsigned short, unsigned short) as LatticePresets_addHopping8
 //@end
 /* ---- addHopping(L, i, j, t): SUM_{s a} t c^+_{ias} c_{jas} + h.c. */
@@ -398,18 +418,37 @@ ADD_PRE(PM_HOPPING)
 __CPROVER_requires(g_pc.l1 == Label1 && g_pc.l2 == Label2 && D_SAME(g_pc.a1, t))
 /* ghost member: kind 0: t c^+_{i ga gz1} c_{j ga gz1};  kind 1: its conjugate t c^+_{j ga gz1} c_{i ga gz1} (the same term twice if i == j) */
 __CPROVER_requires((K1 && K2) ==> (g_pc.ga < O1 && g_pc.gz1 < Z1 && (g_pc.gkind == 0 || g_pc.gkind == 1)) && g_pc.exp == (Label1 == Label2 ? 2UL : 1UL))
-__CPROVER_assigns(VERIF_thrown, g_pm)
+__CPROVER_assigns(VERIF_thrown, g_pm, g_ft)
 __CPROVER_ensures(VERIF_thrown == (!K1 || !K2 || SIZES_MISMATCH))
 __CPROVER_ensures(VERIF_thrown ==> g_pm.calls == 0)
 __CPROVER_ensures(!VERIF_thrown ==> g_pm.hits == g_pc.exp)
 //@loop 1
-__CPROVER_assigns(z, g_pm)
+__CPROVER_assigns(z, g_pm, g_ft)
 __CPROVER_loop_invariant(z <= Spins && !VERIF_thrown && GH(z <= g_pc.gz1))
 __CPROVER_decreases(Spins - z)
 //@loop 2
-__CPROVER_assigns(i, g_pm)
+__CPROVER_assigns(i, g_pm, g_ft)
 __CPROVER_loop_invariant(i <= Orbitals && !VERIF_thrown && (z == g_pc.gz1 ? GH(i <= g_pc.ga) : g_pm.hits == __CPROVER_loop_entry(g_pm.hits)))
 __CPROVER_decreases(Orbitals - i)
 //@end
-//@harness h_addHopping4 enforce=LatticePresets_addHopping4 replace=Presets_Hopping7 props=C04,C20 min_obl=100 reach=3 objbits=8
+//@harness h_addHopping4 enforce=LatticePresets_addHopping4 props=C04,C20 min_obl=4170 reach=3 objbits=8 timeout=900
 void h_addHopping4(void) { struct Lattice *L; label_t l1, l2; double t; LatticePresets_addHopping4(L, l1, l2, t); if (VERIF_thrown) REACH("thrown"); REACH("exit"); }
+
+/* MUTATION RECORD (tools/try_mutant.py, src/pomerol/LatticePresets.cpp; all killed):
+ *  F1 Spinflip orbitals {a,b,a,b}                   Presets_Spinflip.postcondition.2
+ *  F2 Spinflip guard `||` -> `&&`                   Presets_Spinflip.postcondition.1
+ *  F3 PairHopping spins {s,t,t,s}                   Presets_PairHopping.postcondition.2
+ *  F4 NupNdown(label,U,a,b) spins (down,up)         Presets_NupNdown4.postcondition.1
+ *  F5 Hopping operator sequence {c, c+}             Presets_Hopping7.postcondition.1
+ *  F6 SminusSplus does not assign the spins         Presets_SminusSplus.postcondition.1
+ *  F7 NupNdown degenerate test ignores the orbital  Presets_NupNdown7.postcondition.1
+ *  F8 Level stores -Value                           Presets_Level.postcondition.1
+ *  A1 addLevel spin loop starts at 1                LatticePresets_addLevel.loop_invariant_base.3/.6, loop_invariant_step.6
+ *  A2 addLevel Level(Label, eps, z, i)              pm_monitor.assertion.1 (C20 validity), LatticePresets_addLevel.loop_invariant_step.2/.4
+ * EXPECTED FAILURE on the unchanged tree (known finding D14, the contract is written from the documentation
+ *   "mH 1/2 (n_up - n_down)" while the code stores +-mH): harness h_addMagnetization, obligations
+ *   pm_monitor.assertion.2 ("C04: every term handed to the storage belongs to the documented sum, with the documented amplitude")
+ *   and its consequence LatticePresets_addMagnetization.loop_invariant_step.2 (the ghost term (mH/2) n is never handed over).
+ * UNDECIDED at the 8 GB limit of tools/run_cbmc.py (SAT solver out of memory, no failure reported): h_addSzSz, h_addSS, h_addHopping4.
+ * NOT under contract yet: addCoulombP (both overloads), addHopping 5/6/8-argument overloads on their own (the 8-argument one is
+ *   inlined into h_addHopping4), IndexHamiltonian::prepare. */
